@@ -267,7 +267,9 @@ def api_lookups(a: int, flag: bool) -> None:
 
 
 NEAR = [("%order total% + 1", "%order  total% + 1"), ("%a b%(1)", "%a\tb%(1)"), ("%x y% += 1", "%x  y% += 1"),
-        ("%p q% if %r s% else 0", "%p  q% if %r  s% else 0"), ("[%k 1%, %k  1%]", "[%k  1%, %k 1%]"), ("%q%", " %q% "), ("q.%m n%()", "q.%m  n%()")]
+        ("%p q% if %r s% else 0", "%p  q% if %r  s% else 0"), ("[%k 1%, %k  1%]", "[%k  1%, %k 1%]"), ("%q%", " %q% "), ("q.%m n%()", "q.%m  n%()"),
+        ("[a, {b: c}] | f(x if y else z)", "[a, {b: c}] | f(x if y else z)"), ("p = {}\nq = [] + [r.s(t)]", "p = {}\nq = [] + [r.s(t)]"),
+        ("picked = [a, b] | filter(v => v > limit)", "picked = [a, b] | filter(v => v > limit)")]
 with hlib.native(unwalled=True):
     _C18CACHE = {}
     CACHING = SqParser(parse_cache=_C18CACHE)
@@ -275,13 +277,13 @@ with hlib.native(unwalled=True):
 
 def api_lookups_cached(pi: int, swap: bool, parse_first: bool) -> None:
     """
-    pre: 0 <= pi < 7
+    pre: 0 <= pi < 10
     post: True
     """
     # a parser with a parse cache that has just handled a NEAR-DUPLICATE of the text (blank runs inside %names% differ):
     # evaluation still asks the host only for names that list_names reports for THIS text
     hlib.enter(locals())
-    pi = hlib.concrete(pi, 0, 6)
+    pi = hlib.concrete(pi, 0, 9)
     first, text = NEAR[pi][::-1] if swap else NEAR[pi]
     with hlib.native():
         _C18CACHE.clear()
